@@ -554,6 +554,48 @@ def check_reexports():
             raise ExtractError("lib.rs json module no longer has the modelled shape: %s" % pat[:40])
 
 
+def independent_reach(ex):
+    """The Rust type names reachable from ROOTS, found WITHOUT the type grammar / descriptor builder above: every
+    CamelCase path in the field and payload positions of an item's body that resolves to a scanned struct / enum is
+    an edge (type aliases are followed, hand-written impls are leaves).  Used for the obligation that every
+    reachable type has a descriptor and every descriptor belongs to a reachable type (Props/C15.v)."""
+    path_re = re.compile(r"[A-Za-z_][A-Za-z0-9_]*(?:\s*::\s*[A-Za-z_][A-Za-z0-9_]*)*")
+    seen, todo, names = set(), [ex.follow(k) for k in ROOTS], set()
+    while todo:
+        key = todo.pop()
+        if key in seen:
+            continue
+        seen.add(key)
+        it = ex.items[key]
+        if it["kind"] != "type":
+            names.add("%s.%s" % key)
+        if key in OPAQUE:
+            continue
+        s0, e0 = it["body"]
+        src, m = it["src"], it["m"]
+        texts = []
+        if it["kind"] == "enum":
+            for a, b in split_commas(src, m, s0, e0):
+                _, _, restm = find_attrs(src, m, a, b)
+                mm = re.match(r"\s*[A-Za-z_][A-Za-z0-9_]*", restm)     # the variant's own name is not a type
+                texts.append(restm[mm.end():] if mm else restm)
+        else:
+            for a, b in (split_commas(src, m, s0, e0) if it["kind"] == "struct" else [(s0, e0)]):
+                _, _, restm = find_attrs(src, m, a, b)
+                texts.append(restm)
+        for t in texts:
+            for mm in path_re.finditer(t):
+                segs = [x.strip() for x in mm.group(0).split("::")]
+                if not segs[-1][:1].isupper():
+                    continue
+                try:
+                    k2 = ex.resolve(segs, it["rel"], it["module"])
+                except ExtractError:
+                    continue      # a type parameter, a std type, a field name
+                todo.append(k2)
+    return sorted(names)
+
+
 def extract():
     check_reexports()
     ex = Extractor()
@@ -561,7 +603,8 @@ def extract():
     for key in ROOTS:
         roots.append(ex.instantiate(ex.follow(key), []))
     env = [(n, ex.env[n]) for n in ex.order]
-    return {"env": env, "roots": {"pl": roots[0][1], "rq": roots[1][1]}, "opaque": sorted(OPAQUE[k] for k in ex.hits)}
+    return {"env": env, "roots": {"pl": roots[0][1], "rq": roots[1][1]}, "opaque": sorted(OPAQUE[k] for k in ex.hits),
+            "rust_reachable": independent_reach(ex), "opaque_names": sorted("%s.%s" % k for k in OPAQUE)}
 
 
 # ---------------------------------------------------------------- Coq output
@@ -625,5 +668,8 @@ def generate():
     v += "Definition root_pl : desc := DRef %s. (* %s *)\n" % (codes(info["roots"]["pl"]), info["roots"]["pl"])
     v += "Definition root_rq : desc := DRef %s. (* %s *)\n" % (codes(info["roots"]["rq"]), info["roots"]["rq"])
     v += "Definition type_count : nat := %d.\n" % len(info["env"])
+    v += "(* independent textual reachability scan of the Rust sources from the two root types *)\n"
+    v += "Definition rust_reachable : list str := [\n  " + ";\n  ".join("%s (* %s *)" % (codes(n), n) for n in info["rust_reachable"]) + " ].\n"
+    v += "Definition opaque_names : list str := [" + "; ".join("%s (* %s *)" % (codes(n), n) for n in info["opaque_names"]) + "].\n"
     gen_write("GenSerde", v)
     return info
